@@ -81,13 +81,35 @@ def check(ctx):
         if len(batch) == 100:
             bad += d.run_batch(batch); batch = []
     bad += d.run_batch(batch)
+    # threads suspended in the middle of an expression (operands on the VM stack) at the save point, the
+    # callee's result printed: a fixed family with save;load at EVERY boundary, then random programs
+    expr_cases = schedgen.c09_expr_model_cases(quick)
+    for i in range(0, len(expr_cases), 100):
+        bad += d.run_batch(expr_cases[i:i + 100])
+    ctx.stats["expr_family_cases"] = len(expr_cases)
+    rng = ctx.rng("model-expr")
+    batch = []
+    for i in range(200 if quick else 10000):
+        batch.append(("c09x:%d" % i, schedgen.gen_c09_case(rng, prog=schedgen.gen_c09_expr_prog(rng))[0]))
+        if len(batch) == 100:
+            bad += d.run_batch(batch); batch = []
+    bad += d.run_batch(batch)
     ctx.oblige("correspondence harness/engine.cpp == Sched.Machine with save;load on %d cases" % d.cases,
                bad == 0 and d.failing_cases == 0, "%d differing" % max(bad, d.failing_cases), reported=True)
     # (b) engine A/B at every boundary
     rng = ctx.rng("ab")
+    rngx = ctx.rng("ab-expr")
     runs = cases = fails = 0
-    for i in range(25 if quick else 1500):
-        if i % 2 == 0:
+    fixed = schedgen.c09_expr_ab_cases(quick)
+    nrand = 25 if quick else 1500
+    nexpr = 8 if quick else 500
+    for i in range(-len(fixed), nrand + nexpr):
+        if i < 0:
+            desc, base = fixed[i + len(fixed)]       # deterministic: suspended mid-expression, results visible
+        elif i >= nrand:
+            _, base, _ = schedgen.gen_c09_case(rngx, prog=schedgen.gen_c09_expr_prog(rngx))
+            desc = base[1].split("## ", 1)[-1]
+        elif i % 2 == 0:
             base, src = schedgen.gen_vars_case(rng)
             desc = src
         else:
@@ -110,7 +132,7 @@ def check(ctx):
     ctx.samples = [[l if not l.startswith("script ") else "script m <hex> ## " + l.split("## ", 1)[1] for l in sample],
                    schedgen.gen_vars_case(ctx.rng("sample2"))[1].split("\n")[:25]]
     cov = {"evaluations": d.cases + runs, "distinct_nontrivial": len(d.distinct) + cases,
-           "rule": "(a) multi-thread programs (timed waits, thread, waitthread, pause) started without host Event, random frame schedules, one save;load inserted at a random boundary, compared with the machine executing load(save s); (b) the same programs and programs holding locals of every archivable kind (ints incl. >2^32, strings, float, NIL, vector, char, arrays, nested arrays, shared arrays, const arrays, listener reference, group variable) mutated and printed after waits: engine with save;load at EVERY boundary vs uninterrupted engine; non-trivial = program prints after the save point; distinct by SHA-1",
+           "rule": "(a) multi-thread programs (timed waits, thread, waitthread, pause) started without host Event, random frame schedules, one save;load inserted at a random boundary, compared with the machine executing load(save s); a fixed family and random programs whose callers are suspended in the MIDDLE OF AN EXPRESSION at the save point (`100 + (waitthread l)`, `local.r = waitthread l`, array element, level variable, nested and concurrent callers; the callee sleeps across the save; the result is printed as a marker), the fixed family with save;load at EVERY boundary; (b) the same programs, free-text scripts using pending results as call arguments / in string, array, vector, comparison expressions / in if, while, switch heads, and programs holding locals of every archivable kind (ints incl. >2^32, strings, float, NIL, vector, char, arrays, nested arrays, shared arrays, const arrays, listener reference, group variable) mutated and printed after waits: engine with save;load at EVERY boundary vs uninterrupted engine; non-trivial = program prints after the save point; distinct by SHA-1",
            "ab_programs": cases, "ab_runs": runs, "op_histogram": d.hist, "exhaustive": False, "skipped_after_failures": d.skipped}
     return common.finish(ctx, "proof", cov, TRUSTED, ASSUME,
                          "cd lean && lake build && #print axioms audit; python3 tools/check.py C09")
